@@ -24,9 +24,9 @@ def check(run):
             pend = 1 if (thorough or S <= 3 or N <= 3) else 0
             plan.append((f'real run: process T1 N={N}, stream length {S} (last byte LF), all chunkings + 1 empty read vs byte-at-a-time vs run per message'
                          + ('; one Pending injection at every adapter call position' if pend else ''),
-                         EQ + ({'S': S, 'N': N, 'pending': pend},), 2400 if thorough else 600, True))
+                         EQ + ({'S': S, 'N': N, 'pending': pend},), 2400 if thorough else 600, S <= 4))
     if thorough:
-        plan.append(('real run: process T1 N=3, stream length 5', EQ + ({'S': 5, 'N': 3, 'pending': 0},), 2400, True))
+        plan.append(('real run: process T1 N=3, stream length 5', EQ + ({'S': 5, 'N': 3, 'pending': 0},), 2400, False))
     if thorough:
         plan.append(('real run: process T1 N=4, stream length 6', EQ + ({'S': 6, 'N': 4, 'pending': 0},), 3000, False))
         plan.append(('real run: streams not ending in LF, N=3, S=4', EQ + ({'S': 4, 'N': 3, 'pending': 2, 'force_nl': False},), 2400, True))
